@@ -3,8 +3,8 @@ CONSTANTS
   OrthoEdges = {2, 3, 6}
   TricEdges = {2, 3, 4, 6}
   SlicesO = 1
-  SlicesT = 53
-  XRowO = 4
+  SlicesT = 71
+  XRowO = 3
   XRowT = 2
   ExplicitThin = 7
   Slice <- MCSlice
